@@ -374,3 +374,5 @@ LEMMAS.update({
 
 LEMMAS["L5.full_space_percolates_to_empty_network"] = ("card(S) = nvars(N)  ==>  percolate_network(bn, S, remove_constants=True) has no variables: it is the empty "
                                                        "network (the code returns BooleanNetwork() for such nodes without calling AEON)   [trivial]")
+
+LEMMAS["def.card(bounded)"] = "a well-formed space over vars(N) fixes at most nvars(N) variables (card counts distinct variables of the network)"
